@@ -24,6 +24,7 @@ func runC03(w *World) *Result {
 	r.Rule("R-C03-arity", "helper call templates pass exactly the positional arguments the helper body reads", 5)
 	r.Rule("R-C03-dvc", "array counter incremented before the array name is formed; one global counter name", 2)
 	r.Rule("R-C03-init", "helper routines give their counters / accumulators a value before updating them from themselves", 4)
+	r.Rule("R-C03-numcmp", "Bash test commands order numbers with -lt/-le/-gt/-ge, never with < or > (text order)", 1)
 	r.Rule("R-C03-scratch", "a helper keeps no state in a non-local variable that a helper it calls assigns", 1)
 	r.Rule("R-C03-driver", "slice/string nodes: the driver evaluates each operand once, used, in source order, then calls the converter", 5)
 	ProtoRule(w, r, "R-C03-driver", func(n string) bool {
@@ -45,6 +46,9 @@ func runC03(w *World) *Result {
 		c03Arity(w, b, r)
 		c03Dvc(w, b, r)
 		c03Scratch(w, b, r)
+		if role == "bash" {
+			BashTestOrderRule(w, b, r, "R-C03-numcmp", func(l *Line) bool { return l.Em.Helper != "" })
+		}
 		sliceHelpers := map[string]bool{}
 		for _, m := range []string{"SliceInstantiation", "SliceAssignment", "SliceEvaluation", "SliceLen", "StringSubscript", "StringLen", "Copy"} {
 			for _, l := range b.LinesOf(m) {
@@ -1004,5 +1008,51 @@ func HelperInitRule(w *World, b *Backend, r *Result, rule string, only func(help
 				r.Bad(rule, key, pos, fmt.Sprintf("helper %s updates %s from its own previous value (line %d: %s) without giving it a value first: the routine continues from what its previous invocation left in %s", h, u.v, u.line+1, strings.TrimSpace(lines[u.line].Variant.String()), u.v))
 			}
 		}
+	}
+}
+
+// BashTestOrderRule: inside [ … ] and [[ … ]] the operators < and > compare strings (and are
+// redirections in [ … ]); numbers are ordered with -lt/-le/-gt/-ge or inside (( … )). The
+// language has no string ordering, so every < or > in a test command orders numbers as
+// text: "9" < "10" is false.
+func BashTestOrderRule(w *World, b *Backend, r *Result, rule string, only func(l *Line) bool) {
+	seen := map[string]bool{}
+	n := 0
+	for _, l := range b.Lines {
+		if l.Bash == nil || l.Bash.Comment || (only != nil && !only(l)) {
+			continue
+		}
+		for _, c := range l.Bash.Cmds {
+			if c.Name != "[" && c.Name != "[[" && c.Name != "test" {
+				continue
+			}
+			n++
+			key := fmt.Sprintf("testorder:bash:%s:%s", lineKey(l), c.Name)
+			bad := ""
+			for _, wd := range c.Words {
+				switch strings.Trim(wd, "\\") {
+				case "<", ">", "<=", ">=":
+					bad = wd
+				}
+			}
+			if len(c.Redirs) > 0 {
+				bad = "redirection " + strings.Join(c.Redirs, " ")
+			}
+			if bad != "" {
+				k := key + ":" + bad
+				if !seen[k] {
+					seen[k] = true
+					r.Bad(rule, k, w.Pos(l.Em.Pos), fmt.Sprintf("the test command orders its operands with %s, which compares text (\"9\" < \"10\" is false) or redirects: %s", bad, l.Variant.String()))
+				}
+				continue
+			}
+			if !seen[key] {
+				seen[key] = true
+				r.Ok(rule, key, w.Pos(l.Em.Pos), "test command without textual ordering operator: "+l.Variant.String())
+			}
+		}
+	}
+	if n == 0 {
+		r.Bad(rule, "testorder:bash:none", "-", "no test command found in the Bash templates")
 	}
 }
